@@ -293,15 +293,17 @@ pub fn generate(rng: &mut Rng, p: &Pools, mode: &str) -> Workload {
             threads[b].insert(pb, o2);
         }
     }
-    // churn: one workload in six gets 1-3 churn operations of the same kind on different threads
-    if !c10 && rng.chance(1, 6) {
-        let kind = rng.below(3) as u8;
+    // churn: one workload in four gets churn operations of one kind
+    if !c10 && rng.chance(1, 4) {
+        let kind = *rng.pick(&[0u8, 0, 1, 2]);
         let t = *rng.pick(&p.instants);
         // usually on every thread at once (the sweep / eviction of one thread then meets the drops of the others)
+        // ... half of the time all with the same seed: the threads then make the same values, one after the other
+        let common = if rng.chance(1, 2) { Some(rng.below(4) as u32) } else { None };
         for th in 0..n_threads {
             if th == 0 || rng.chance(2, 3) {
                 let pos = rng.usize_below(threads[th].len().min(2) + 1);
-                threads[th].insert(pos, Op::Churn { kind, seed: rng.below(4) as u32, n: rng.range(280, 600) as u32, t });
+                threads[th].insert(pos, Op::Churn { kind, seed: common.unwrap_or(rng.below(4) as u32), n: rng.range(280, 600) as u32, t });
             }
         }
     }
